@@ -19,6 +19,8 @@ pub struct Universe {
     pub max_height: u64,
     /// heights below this one are not observed (chains initialised at a large height)
     pub min_height: u64,
+    /// extra read-only calls (to, data) observed through eth_call at block boundaries
+    pub calls: BTreeSet<(String, String)>,
 }
 
 fn is_hex_of(s: &str, n: usize) -> bool {
@@ -191,6 +193,13 @@ pub fn observe_opts(inst: &mut Inst, u: &Universe, mode: ObsMode, with_traces: b
     };
     q(inst, "eth_blockNumber", json!([]));
     q(inst, "txpool_content", json!([]));
+    // the block tags: what they resolve to must not depend on anything but the chain
+    for tag in ["latest", "safe", "finalized", "pending", "earliest"] {
+        q(inst, "eth_getBlockByNumber", json!([tag, false]));
+        q(inst, "eth_getBlockTransactionCountByNumber", json!([tag]));
+        q(inst, "eth_getLogs", json!([{"fromBlock": tag, "toBlock": tag}]));
+        q(inst, "debug_getRawHeader", json!([tag]));
+    }
     let mut big_blocks: Vec<(u64, u64)> = Vec::new();
     for h in u.min_height..=(u.max_height + 2) {
         let hx = format!("0x{:x}", h);
@@ -277,6 +286,9 @@ pub fn observe_opts(inst: &mut Inst, u: &Universe, mode: ObsMode, with_traces: b
     if mode == ObsMode::Boundary {
         for (pk, t) in &u.pk_tickers {
             q(inst, "brc20_balance", json!({"pkscript": pk, "ticker": t}));
+        }
+        for (to, data) in &u.calls {
+            q(inst, "eth_call", json!([{"to": to, "data": data}]));
         }
         // pure read-back through eth_call: Tool.sload(slot 1) on coded accounts
         for a in coded.iter().take(6) {
